@@ -291,6 +291,43 @@ theorem itemsets_beside (raw : Args) (inDir inName : Str) (out : Option (Str × 
   · rw [jsonReport_fs, hx]; exact hread
   · rw [plainReport_ok_fs _ _ _ cr.warnings (by rw [hx]), hx]; exact hread
 
+/-- the temp-file write inside `print_xform_to_file` fails: disk fault (OSError) or unencodable text -/
+def writeFailure (form : Form) (e : Exc) : Prop :=
+  (∃ m, form = .diskFault m ∧ e = .osError m) ∨ (∃ m, form = .unencodable m ∧ e = .encode m)
+
+theorem convert_writeFailure (form : Form) (e : Exc) (t : Nat) (v p : Bool) (env : Env) (fs : FS)
+    (h : writeFailure form e) :
+    (convert form t v p env fs).res = .error e ∧ (convert form t v p env fs).seen = [] := by
+  rcases h with ⟨m, rfl, rfl⟩ | ⟨m, rfl, rfl⟩ <;> simp [convert, toXml, printXformToFile]
+
+/-- **write_failure_cli** — crash point "writing the XForm text to the temporary file fails" (the `except` branch
+of `print_xform_to_file`), library and command line, for every flag combination, validator environment, output path
+and initial file system: the validator is never started, the file system afterwards equals the one before (no
+temp file, no output, no itemsets), `--json` reports 999 with the error text; plain mode logs an OSError as
+"EnvironmentError" and lets any other exception propagate. -/
+theorem write_failure_cli (raw : Args) (inDir inName : Str) (out : Option (Str × Str)) (form : Form) (e : Exc) (t : Nat)
+    (env : Env) (fs : FS) (h : writeFailure form e) (he : (validatorArgsLogic raw).enketoValidate = false)
+    (hfresh : FS.read fs (.tmp t) = none) :
+    (libCall raw form t env fs).res = .error e ∧ (libCall raw form t env fs).fs = fs ∧
+    ∃ r, mainCli raw inDir inName out form t env fs = some r ∧ r.fs = fs ∧ r.seen = [] ∧
+      ((validatorArgsLogic raw).json = true → r.json = some ⟨codeFail, e.msg, []⟩ ∧ r.raised = none ∧ r.logs = []) ∧
+      ((validatorArgsLogic raw).json = false → r.json = none ∧
+        (∀ m, e = .osError m → r.raised = none ∧ r.logs = [.exception (plainLogFor "OSError") "OSError"]) ∧
+        (∀ m, e = .encode m → r.raised = some e ∧ r.logs = [])) := by
+  have hc := convert_writeFailure form e t (validatorArgsLogic raw).odkValidate (validatorArgsLogic raw).prettyPrint env fs h
+  have hl := no_temp_survives_lib form t (validatorArgsLogic raw).odkValidate (validatorArgsLogic raw).prettyPrint env fs hfresh
+  refine ⟨hc.1, hl, _, mainCli_some raw inDir inName out form t env fs he, ?_, ?_, ?_, ?_⟩
+  · by_cases hj : (validatorArgsLogic raw).json = true
+    · simp [hj, jsonReport_fs, xls2xformConvert, hc.1, hl]
+    · rcases h with ⟨m, rfl, rfl⟩ | ⟨m, rfl, rfl⟩ <;> simp [hj, plainReport, xls2xformConvert, hc.1, hl]
+  · by_cases hj : (validatorArgsLogic raw).json = true
+    · simp [hj, jsonReport, xls2xformConvert, hc.1, hc.2]
+    · rcases h with ⟨m, rfl, rfl⟩ | ⟨m, rfl, rfl⟩ <;> simp [hj, plainReport, xls2xformConvert, hc.1, hc.2]
+  · intro hj
+    simp [hj, jsonReport, xls2xformConvert, hc.1]
+  · intro hj
+    rcases h with ⟨m, rfl, rfl⟩ | ⟨m, rfl, rfl⟩ <;> simp [hj, plainReport, xls2xformConvert, hc.1, Exc.cls]
+
 /-! ## `_validator_args_logic` -/
 
 /-- **args_logic_table** — the eight rows (stored `skip_validate`, `--odk_validate`, `--enketo_validate`) ↦
@@ -435,6 +472,10 @@ example : (mainCli { json := true, skipValidate := false } "in".toList "form.md"
 example : ((convert exForm 7 true false (.ran ⟨-9, false, []⟩) exFs).fs, (convert (.late []) 7 true false .javaAbsent exFs).fs,
     (convert (.unencodable []) 7 true false .javaAbsent exFs).fs, (convert exForm 7 true false .javaAbsent exFs).fs)
     = (exFs, exFs, exFs, exFs) := by decide +kernel
+/-- write failure on concrete data: plain CLI, pre-existing output kept, OSError logged -/
+example : writeFailure (.diskFault "No space".toList) (.osError "No space".toList) := .inl ⟨_, rfl, rfl⟩
+example : (mainCli {} "in".toList "form.md".toList (some ("out".toList, "form.xml".toList)) (.diskFault "No space".toList) 7 exReject exFs).map
+    (fun r => (r.fs, r.raised, r.logs.length, r.seen)) = some (exFs, none, 1, []) := by decide +kernel
 /-- cleaner on concrete data -/
 example : odkValidate "x /data/g/q1 y\nx /data/g/q1 y\n\tat a.B(B.java:1)\n/html/body/input".toList
     = "x ${q1} y\n/html/body/input".toList := by decide +kernel
